@@ -96,6 +96,7 @@ type vfH struct {
 	listEOF      string
 	listShort    int
 	closeErr     error                    // returned by every object Close (the close still counts)
+	ioFailFrom   int64                    // when > 0: ReadAt/WriteAt at or beyond this offset fail (after their gate)
 	listOverride map[string][]os.FileInfo // directory path -> entries to list verbatim
 	log          []string                 // ordered event log: "start WriteAt obj#3", "close obj#3", ...
 }
@@ -587,6 +588,8 @@ func (o *vfHObj) end(kind string) {
 	o.mu.Unlock()
 }
 
+var errVfIO = fmt.Errorf("injected i/o failure")
+
 func (o *vfHObj) readAt(b []byte, off int64) (int, error) {
 	o.begin("ReadAt")
 	defer o.end("ReadAt")
@@ -594,6 +597,9 @@ func (o *vfHObj) readAt(b []byte, off int64) (int, error) {
 	o.mu.Lock()
 	o.reads++
 	o.mu.Unlock()
+	if o.h.ioFailFrom > 0 && off >= o.h.ioFailFrom {
+		return 0, errVfIO
+	}
 	f := o.file
 	f.mu.Lock()
 	defer f.mu.Unlock()
@@ -614,6 +620,9 @@ func (o *vfHObj) writeAt(b []byte, off int64) (int, error) {
 	o.mu.Lock()
 	o.writes++
 	o.mu.Unlock()
+	if o.h.ioFailFrom > 0 && off >= o.h.ioFailFrom {
+		return 0, errVfIO
+	}
 	if off < 0 || off+int64(len(b)) > 1<<24 {
 		return 0, fmt.Errorf("too large")
 	}
